@@ -6,6 +6,18 @@ from concurrent.futures import ThreadPoolExecutor
 mods = sorted(glob.glob(os.path.join(V, "spec", "**", "*.tla"), recursive=True))
 def one(m):
     try:
+        if os.path.basename(m) == "SchedTrace.tla":
+            # needs a per-run TraceData module: parse it through a stub
+            import tempfile, shutil
+            d = tempfile.mkdtemp(prefix="sany-")
+            try:
+                open(os.path.join(d, "TraceData.tla"), "w").write(
+                    "---- MODULE TraceData ----\nEXTENDS Integers, Sequences, TLC\nRuns == <<>>\n====\n")
+                open(os.path.join(d, "Run.tla"), "w").write("---- MODULE Run ----\nEXTENDS SchedTrace\n====\n")
+                tlc.sany(os.path.join(d, "Run.tla"))
+            finally:
+                shutil.rmtree(d, ignore_errors=True)
+            return None
         tlc.sany(m)
         return None
     except Exception as e:
